@@ -128,10 +128,10 @@ func (c *Ctx) lawfulTopicID(v ssa.Value, alloc *ssa.Function, depth int) (string
 				return "parameter without callers", false
 			}
 			kinds = append(kinds, "lawful argument")
-		case o.Kind == "param" && len(o.Path) >= 1 && o.Path[len(o.Path)-1] == "topicID" && strings.HasPrefix(typeStr(o.RootType()), "*gateway."):
-			// transaction field set at construction from a lawful argument
-			if k, ok := c.fieldStoresLawful(typeStr(derefType(o.RootType())), "topicID", alloc, depth+1); !ok {
-				return "transaction field topicID: " + k, false
+		case o.Kind == "param" && len(o.Path) == 1 && strings.HasPrefix(typeStr(o.RootType()), "*gateway.") && c.txRoleOf(typeStr(o.RootType())) != typeStr(o.RootType()):
+			// a field of a gateway transaction (whatever its name) set at construction from a lawful argument
+			if k, ok := c.fieldStoresLawful(typeStr(derefType(o.RootType())), o.Path[0], alloc, depth+1); !ok {
+				return "transaction field " + o.Path[0] + ": " + k, false
 			}
 			kinds = append(kinds, "transaction field (lawful at construction)")
 		default:
